@@ -1,6 +1,6 @@
     requires old(self).wf(),
     ensures
-        final(self).wf(), // [C09:wf] [C02:wf-dirty-flag-makes-persist-flush]
+        final(self).wf(), // [C09:wf] [C02:wf-dirty-flag-makes-persist-flush] [C13:wf-dirty-flag-makes-persist-flush]
         final(self).file.logical() == old(self).file.logical(), // [C09:persist-keeps-content] [C02:append-only]
         old(self).file.inner.os@.is_prefix_of(final(self).file.inner.os@), // [C09:os-monotone]
         final(self).compression == old(self).compression && final(self).compression_threshold == old(self).compression_threshold,
